@@ -42,6 +42,7 @@ func runC02(c *core.Ctx) {
 	ruleXRefStreamRows(c, "C02-R11")
 	ruleObjStmHeader(c, "C02-R12")
 	ruleObjStmSlots(c, "C02-R13")
+	ruleLoopCarriedTemplates(c, "C02-R16", "pdf")
 	ruleDeferredQueueDetached(c)
 	ruleWriterSideDefaults(c, "C02-R14") // a file the reader cannot authenticate does not round-trip
 }
